@@ -43,7 +43,11 @@ func (p *Parser) Encode(header *parser.PacketHeader, v any) ([][]byte, error) {
 		return nil, fmt.Errorf("parser/json: invalid argument: %w", errNilArgument)
 	}
 
-	if header.Type == parser.PacketTypeEvent || header.Type == parser.PacketTypeAck {
+	switch header.Type {
+	// A header that was encoded before already says "binary" (Encode sets it, see below).
+	// A packet that is kept and encoded again with the same header - the missed packets of
+	// connection state recovery - has to go through the binary encoder again.
+	case parser.PacketTypeEvent, parser.PacketTypeAck, parser.PacketTypeBinaryEvent, parser.PacketTypeBinaryAck:
 		if hasBinary(rv) {
 			switch header.Type {
 			case parser.PacketTypeEvent:
